@@ -107,6 +107,57 @@ def c_score(ctx, case):
         ctx.check(ok, "scoring modified a probe statistics object", "probe-modified")
 
 
+def g_long(draw):
+    c = client_case(draw)
+    c["cond_target"] = 10.0 ** gen.choice(draw, [10.3, 10.6, 11.0, 9.0])
+    return c
+
+
+@REG.obligation("long_probes_keep_the_posterior_mean", g_long, quick=250, thorough=5000)
+def c_long(ctx, case):
+    """A long probe (1e5..1e9 frames) and channel directions of very different strength: I + U'S^-1 N U is badly
+    conditioned but never singular (all eigenvalues >= 1), and estimate_x still solves the defining system, up to
+    the rounding its condition number explains."""
+    EPS = np.finfo(float).eps
+    U = np.array(case["U"], dtype=float)
+    if U.shape[1] < 2:
+        ctx.discard("a single channel direction")
+    U[:, 0] *= 300.0
+    U[:, -1] *= 1e-3
+    case = dict(case, U=U)
+    p = case["ubm"]
+    F = p["F"]
+    fa = sut.fa_ref(case)
+    pl = pooled(case["sessions"])
+    N = np.repeat(pl["n"], F)
+    lam = float(np.linalg.eigvalsh(U.T @ ((N / fa.sig)[:, None] * U)).max())
+    if not np.isfinite(lam) or lam <= 0:
+        ctx.discard("no evidence in the probe")
+    k = float(case["cond_target"]) / lam
+    sessions = [dict(s, n=np.asarray(s["n"]) * k, sum_px=np.asarray(s["sum_px"]) * k, sum_pxx=np.asarray(s["sum_pxx"]) * k,
+                     t=max(1, int(round(s["t"] * k)))) for s in case["sessions"]]
+    case = dict(case, sessions=sessions)
+    pl = pooled(sessions)
+    N = np.repeat(pl["n"], F)
+    A = np.eye(fa.rU) + U.T @ ((N / fa.sig)[:, None] * U)
+    cond = float(np.linalg.cond(A))
+    if not np.isfinite(cond) or cond > 1e12:
+        ctx.discard("condition number beyond 1e12")
+    b = U.T @ ((pl["sum_px"].ravel() - N * fa.m) / fa.sig)
+    x = np.linalg.solve(A, b)
+    ctx.note(cond > 2e10 and np.abs(x).max() > 0, "jfa" if case["jfa"] else "isv", "cond=1e%d" % int(np.floor(np.log10(cond))))
+    m = sut.make_fa(case)
+    stats = sut.sessions_of(case)
+    gx = np.asarray(m.estimate_x(stats), float).reshape(-1)
+    ctx.stat_max("x error / (eps*cond*|x|)", float(np.abs(gx - x).max() / (EPS * cond * np.abs(x).max() + 1e-300)))
+    ctx.close(gx, x, "estimate_x of a long probe (cond %.1e)" % cond, rtol=0, atol=1e3 * EPS * cond * np.abs(x).max() + 1e-300)
+    # the defining system itself: (I + U'S^-1 N U) x = U'S^-1 (F - N m), judged along every eigen-direction of the matrix
+    w, Q = np.linalg.eigh(A)
+    res = Q.T @ (A @ gx - b)
+    ctx.close(res, np.zeros_like(res), "residual of the defining system along the eigen-directions", rtol=0,
+              atol=1e3 * EPS * cond * (np.abs(Q.T @ b).max() + np.abs(w).max() * 0 + 1e-300))
+
+
 def g_arrays(draw):
     c = client_case(draw)
     r = gen.rng(draw)
